@@ -108,12 +108,15 @@ func validateScripts() (cov map[string]any, errs []string) {
 func bfsC17(tier string) *harness.BFSDef {
 	al := []string{"A w/d", "A w/f", "A w/d/a", "A w/d/sub", "R w/d", "R w/f", "R w/d/a", "R w/d/sub", "C",
 		"touch w/d/n", "rm w/d/a", "rm w/d/n", "mv w/d/a w/d/c", "mv w/d/c w/d/a", "mkdir w/d/m", "rmdir w/d/m",
-		"sym a w/d/l2", "mkfifo w/d/ff", "rm w/d/fifo", "rm w/d/lnk", "rmr w/d", "mv w/d w/e", "rm w/f", "mv w/f w/g", "touch w/f", "rmr w/d/sub"}
-	d := 4
+		"sym a w/d/l2", "mkfifo w/d/ff", "rm w/d/fifo", "rm w/d/lnk", "rmr w/d", "mv w/d w/e", "rm w/f", "mv w/f w/g", "touch w/f", "rmr w/d/sub",
+		"chmod w/d", "chmod w/d/a"}
+	// second phase: every burst of two (no quiescence in between, so kqueue merges the notes of one vnode into one
+	// kevent - the descriptor/table oracle is an end-state oracle and applies to bursts as well)
+	d, td := 4, 1
 	if tier == "thorough" {
-		d = 7
+		d, td = 7, 2
 	}
-	return &harness.BFSDef{Name: "kq-descriptors", Family: "kq", Base: map[string]any{"fix": "kmixed", "init": []string{}, "judge18": "false"}, Alphabet: al, Depth: d}
+	return &harness.BFSDef{Name: "kq-descriptors", Family: "kq", Base: map[string]any{"fix": "kmixed", "init": []string{}, "judge18": "false"}, Alphabet: al, Depth: d, TailBurst: 2, TailDepth: td}
 }
 
 func bfsC18(tier string) *harness.BFSDef {
@@ -125,6 +128,16 @@ func bfsC18(tier string) *harness.BFSDef {
 		d = 9
 	}
 	return &harness.BFSDef{Name: "kq-directory-semantics", Family: "kq", Base: map[string]any{"fix": "kstd", "init": []string{"A w/d"}}, Alphabet: al, Depth: d}
+}
+
+// bfsC18entry: entries watched on their own before (and after) their directory is added
+func bfsC18entry(tier string) *harness.BFSDef {
+	al := []string{"A w/d/a", "A w/d/sub", "A w/d", "RU w/d", "touch w/d/n", "write w/d/a", "chmod w/d/a", "rm w/d/n", "rm w/d/a", "touch w/d/sub/y", "mkdir w/d/m"}
+	d := 4
+	if tier == "thorough" {
+		d = 6
+	}
+	return &harness.BFSDef{Name: "kq-entry-before-directory", Family: "kq", Base: map[string]any{"fix": "kstd", "init": []string{}}, Alphabet: al, Depth: d}
 }
 
 func bfsC18link(tier string) *harness.BFSDef {
@@ -147,6 +160,13 @@ func kqConcJobs(tier string) []harness.Job {
 				if tier != "thorough" {
 					b = 1 // quick: the kqueue back end takes a lock around every table access, so bound 2 runs to ~10^5..10^6 schedules per program
 				}
+				if tier == "thorough" {
+					// bound 2 with state-key pruning (the oracle is a function of the end state), then, as far as the
+					// time allows, no bound at all
+					jobs = append(jobs, harness.Job{Family: "kqconc", Bound: 2, Prune: true, Params: map[string]any{"init": init, "t1": "C", "t2": t2, "fs": fs}})
+					jobs = append(jobs, harness.Job{Family: "kqconc", Bound: -1, Prune: true, Deepening: true, MaxSeconds: 120, Params: map[string]any{"init": init, "t1": "C", "t2": t2, "fs": fs}})
+					continue
+				}
 				jobs = append(jobs, harness.Job{Family: "kqconc", Bound: b, Params: map[string]any{"init": init, "t1": "C", "t2": t2, "fs": fs}})
 			}
 		}
@@ -163,7 +183,7 @@ func init() {
 		Technique: "explicit-state model checking (BFS) of the transplanted kqueue back end on a simulated kernel validated against recorded BSD expectations; oracle = the simulator's descriptor table: every descriptor the back end opened is closed when its watch ends and after Close, WatchList shows exactly the user's paths, all five tables empty once everything was removed",
 		Assume:    []string{"fidelity of the simulated kqueue is bounded by the testdata scripts' recorded expectations (count in coverage)", "unlink always raises NOTE_DELETE (classic FreeBSD); hard links are left out"}}
 	harness.Checks["C18"] = &harness.CheckDef{Prop: "C18", BFS: func(tier string) []*harness.BFSDef {
-		return []*harness.BFSDef{bfsC18(tier), bfsC18link(tier)}
+		return []*harness.BFSDef{bfsC18(tier), bfsC18link(tier), bfsC18entry(tier)}
 	}, Post: post,
 		Rule:      kqRule,
 		Technique: "explicit-state model checking (BFS) of the transplanted kqueue back end on a simulated kernel validated against recorded BSD expectations; oracle = a reference written from the property: Create once per new entry and never for pre-existing ones, then Write/Chmod/Remove/Rename under the user's spelling, remove-and-recreate = Remove then Create, removing the directory = Remove for it and each announced entry (compared as multisets per step, as the recorded expectations are)",
